@@ -6,12 +6,15 @@ status_never_changed_after_git, journals_tolerant, later_commands_work + the O12
 number n of internal git calls is recorded (GIT_AI_VERIF_TRACE), then the command is re-run from an identical snapshot
 with GIT_AI_VERIF_FAULT=k:fail and k:abort for k = 1…n and compared with the plain-git twin (outcome class, U, notes
 readable, the NEXT commands — `git status`, then a `git commit` — still behave like plain git, no attribution invented)
-→ **corruption stream** over every file under .git/ai → journal-reader correspondence (Lean model vs a real JSON
+→ **corruption stream** over every file under .git/ai → **snapshot stream** (vlib/props/c07_snapshots.py: the blobs under
+working_logs/<HEAD>/blobs damaged after an agent checkpoint, a person retypes lines at the agent's positions, commit; content
+oracle on note + blame; Model/Snapshot.lean vs the real note) → journal-reader correspondence (Lean model vs a real JSON
 parser's per-line verdicts) → search when a tie broke."""
 import concurrent.futures, json, os, random, shutil, sys, time, traceback
 
 from vlib import common as C, e2e
 from vlib.props import c06_util as U
+from vlib.props import c07_snapshots as SNAP
 
 PROP = "C07"
 THEOREMS = [
@@ -26,6 +29,12 @@ THEOREMS = [
     "GitAi.C07.later_commands_work",
     "GitAi.C07.modelHooks_wf",
     "GitAi.C07.witness_O12_strict_reader_blocks_commit",
+    "GitAi.C07.lost_snapshot_never_invents",
+    "GitAi.C07.snapshot_reads_in_source",
+    "GitAi.C07.lost_snapshot_never_invents_in_history",
+    "GitAi.C07.witness_current_fallback_invents",
+    "GitAi.C07.lost_snapshot_invents_with_current_fallback",
+    "GitAi.C07.witness_initial_current_invents",
     "GitAi.C06.inventory_confined",
     "GitAi.C06.refusal_only_precommit",
 ]
@@ -587,8 +596,13 @@ def run(tier, seed):
                 "non-zero status, diagnostic, U untouched, commit only; killed before/after git), every note parses, no person-written line credited to an "
                 "AI session, the NEXT `git status` + `git add` + `git commit` equal plain git's; corruption stream: every file under .git/ai × {truncation at "
                 "line boundaries and random bytes, bit flips, empty, garbage, deleted, replaced by a directory} then status / commit / checkout must equal "
-                "plain git; non-trivial = every run; distinct = distinct (command, fault) / (file, corruption)")
-    res.trusted = ["real git 2.39 (F2 of GitKernel is an assumption)", "extract/wrapper_tables.py", "vlib/props/c06_util.py observation of U",
+                "plain git; snapshot stream: {1 agent checkpoint, 2 sessions, pending INITIAL, agent checkpoint over INITIAL} × blobs {intact, deleted, emptied, "
+                "truncated at a line boundary / mid-line, one byte → 0xFF, one bit flipped, replaced by a directory, blobs/ removed, checkpoints.jsonl + INITIAL "
+                "pointing to a non-existent sha} × a person {retypes the agent's lines in place, inserts above, both, moves to the end, rewrites all, nothing} then "
+                "commit: status as plain git, notes parse, every line the note / git-ai blame credit to a session has a content that session reported, and the "
+                "note equals Model/Snapshot.lean's with the fallbacks extracted from the source; non-trivial = every run; distinct = distinct (command, fault) / "
+                "(file, corruption) / snapshot scenario")
+    res.trusted = ["real git 2.39 (F2 of GitKernel is an assumption)", "extract/wrapper_tables.py", "extract/snapshot_reads.py", "vlib/props/c06_util.py observation of U",
                    "the fault hook of repository.rs (GIT_AI_VERIF_FAULT) injects at exec_git* only", "Lean 4.33 kernel"]
     res.assumptions = [
         "PARTIAL (DESIGN §10): fault points are git-ai's internal steps — end to end only the internal git subprocess calls (k:fail makes the call return an error "
@@ -598,9 +612,16 @@ def run(tier, seed):
         "one real panic path (post-clone status line on a full stdout) was found by reading, fixed (5b890727) and is replayed from the corpus",
         "corruption stream: files under .git/ai only (files replaced by directories, not directories by files); `.git/ai` itself turned into a file makes "
         "RepoStorage::for_ai_dir panic before git — outside the stated quantifier, recorded as a limit",
+        "snapshots (§6): one file, line-granular (content ids; the checkpoint's diff is Sys.checkpointAttr — tracker behaviour at line level is C16's); `Damaged` = a blob "
+        "reads as written / truncated at a line boundary / not at all — a blob altered but still readable (mid-line truncation, a bit flip that stays UTF-8, forged content) "
+        "is outside the theorem and covered by the oracles only; the theorem is about the commit path (human checkpoint + note). With the agent protocol (a human checkpoint before the agent edits, as in C03's `aiEdit`) "
+        "a loss is absorbed by that human checkpoint exactly as by the pre-commit one (same function); an AGENT checkpoint that comes WITHOUT it after a loss diffs against the "
+        "empty content and credits every line of the file that is not in HEAD to that agent (observed on the binary: lines a person had typed and checkpointed go to the agent) "
+        "— outside the protocol C03 quantifies over, not modelled, not searched",
         "a wrapper killed after git finished necessarily reports the signal's status; the theorem and the oracle classify this case separately (killed-after-git)",
     ]
     inv = U.phase_extract(res)
+    snap_params = SNAP.extract(res)
     C.phase_proofs(res, PROP, [t for t in THEOREMS if t.startswith("GitAi.C07.")])
     # the two C06 table theorems the dichotomy's hypotheses rest on
     ok6, per6, _ = C.audit_theorems("GitAiModel/Props/C06.lean", [t for t in THEOREMS if t.startswith("GitAi.C06.")])
@@ -680,6 +701,18 @@ def run(tier, seed):
         res.broken_tie("corruption-stream:vacuous", f"only {cruns} corruptions executed")
     U.validate_trace(res, inv, traces, "trace")
 
+    # snapshot stream: damaged / missing checkpoint snapshots never invent attribution
+    snap_fail, snap_bad = SNAP.phase(res, tier, seed, snap_params)
+
+    if res.broken and not res.violations and tier == "quick" and any("snapshot" in str(b.get("obligation")) or "lost_snapshot" in str(b.get("obligation"))
+                                                                    or "lake build" in str(b.get("obligation")) for b in res.broken):
+        # the snapshot model / its extracted parameters no longer hold: search the snapshot scenarios with other seeds
+        for extra_seed in (seed + 101, seed + 202):
+            f2, _ = SNAP.phase(res, "quick", extra_seed, snap_params)
+            if f2:
+                break
+        res.extra["search"] = ("a tie broke; the snapshot stream was re-run with two more seeds: "
+                               + ("a failing input was found" if res.violations else "no failing input found"))
     if res.broken and not res.violations:
         # a tie broke and no oracle failed yet: widen the search (all commands, every k)
         more = [c for c in COMMANDS if c[0] not in QUICK] if tier == "quick" else []
